@@ -87,19 +87,26 @@ type c18RecDialer struct {
 	mu       sync.Mutex
 	tag      int
 	log      *[]string
-	failNext *bool // shared by all node dialers: the next dial fails with ENETUNREACH
+	failNext *int // shared by all node dialers: the next dial fails (1 = ENETUNREACH, 2 = ECONNREFUSED, 3 = i/o timeout)
 }
 
 func (d *c18RecDialer) DialContext(_ context.Context, network, addr string) (netproxy.Conn, error) {
 	d.mu.Lock()
 	*d.log = append(*d.log, fmt.Sprintf("%d|%s", d.tag, addr))
 	fail := *d.failNext
-	*d.failNext = false
+	*d.failNext = 0
 	d.mu.Unlock()
-	if fail {
-		// let the probe started by this attempt finish before routeDial retries (determinism)
+	if fail != 0 {
+		// let the probe started by this attempt finish before routeDial goes on (determinism)
 		synctest.Wait()
-		return nil, &net.OpError{Op: "dial", Net: network, Err: os.NewSyscallError("connect", syscall.ENETUNREACH)}
+		switch fail {
+		case 1: // forces the dialer unavailable; routeDial retries once
+			return nil, &net.OpError{Op: "dial", Net: network, Err: os.NewSyscallError("connect", syscall.ENETUNREACH)}
+		case 2:
+			return nil, &net.OpError{Op: "dial", Net: network, Err: os.NewSyscallError("connect", syscall.ECONNREFUSED)}
+		default:
+			return nil, &net.OpError{Op: "dial", Net: network, Err: os.ErrDeadlineExceeded}
+		}
 	}
 	return c18Conn{}, nil
 }
@@ -561,7 +568,7 @@ func TestVerifC18(t *testing.T) {
 	// ------------------------------------------------ stateful world (virtual time)
 	w := &c18World{log: log}
 	var dialLog []string
-	failNext := false
+	failNext := 0
 	// two interchangeable node dialers per group: after a forced-unavailable report the retry of
 	// routeDial finds the other one.  Rebuilt after every injected failure (fresh health state).
 	buildGroups := func() {
@@ -662,7 +669,8 @@ func TestVerifC18(t *testing.T) {
 		}
 		for ep := 0; ep < nEpisodes; ep++ {
 			w.reset()
-			st.Emit("reset", "ok")
+			// tunables the property does not fix are taken from the running code
+			st.Emit(fmt.Sprintf("reset %d %d", int64(realDomainNegativeCacheTTL), minFirefoxCacheTtl), "ok")
 			mode := modes[r.Intn(len(modes))]
 			setMode := func(m string) {
 				mode = m
@@ -731,14 +739,14 @@ func TestVerifC18(t *testing.T) {
 			settle := func(ans []string) {
 				synctest.Wait()
 				if hasT(ans) {
-					time.Sleep(600 * time.Millisecond)
+					time.Sleep(realDomainProbeTimeout + 100*time.Millisecond)
 					synctest.Wait()
 				}
 			}
 			afterT := func(ans []string) {
 				if hasT(ans) {
 					stats.Inc("probe.timeout-scripted")
-					st.Emit("adv 600000000", "ok")
+					st.Emit(fmt.Sprintf("adv %d", int64(realDomainProbeTimeout+100*time.Millisecond)), "ok")
 				}
 			}
 			nOps := 12 + r.Intn(30)
@@ -825,6 +833,16 @@ func TestVerifC18(t *testing.T) {
 								w.ctrl.optimisticCacheTtl.Store(5)
 							case 2:
 								w.ctrl.maxCacheSize.Store(2)
+								// evictLRUIfFull breaks lastAccess ties by sync.Map order: give every entry a
+								// distinct access time (key order) so that the op stream is a function of the seed
+								var ks []string
+								w.ctrl.dnsCache.Range(func(k, _ any) bool { ks = append(ks, k.(string)); return true })
+								sort.Strings(ks)
+								for i, k := range ks {
+									if v, ok := w.ctrl.dnsCache.Load(k); ok {
+										v.(*DnsCache).lastAccessNano.Store(int64(i + 1))
+									}
+								}
 							}
 							w.ctrl.evictExpiredDnsCache(time.Now())
 							w.ctrl.optimisticCacheEnabled.Store(false)
@@ -1131,8 +1149,14 @@ func TestVerifC18(t *testing.T) {
 					}
 					ans := answers(d)
 					nOut := []int{5, 5, 5, 5, 5, 5, 5, 5, 4, 3, 2}[r.Intn(11)]
-					fail := r.Chance(0.25)
-					if fail {
+					if mode == "domain" {
+						// a re-route to a nonexistent outbound fails either way; whether the code still starts a
+						// probe before noticing is not the property: keep that case to the modes without probes
+						nOut = 5
+					}
+					fail := []int{0, 0, 0, 0, 0, 1, 1, 1, 2, 3}[r.Intn(10)]
+					udp := fail == 0 && r.Chance(0.2)
+					if fail != 0 {
 						for i := range ans {
 							if ans[i] == "T" {
 								ans[i] = "0011"
@@ -1169,11 +1193,41 @@ func TestVerifC18(t *testing.T) {
 						stats.Sample("route-crash " + c18Hex(d) + " " + rt)
 						rt = "err"
 					}
-					op := fmt.Sprintf("dial %d %s %s %s %d %s %s %s", ob, c18DstTok(dst), c18Hex(d), rt, nOut, c18Bool(fail), metaTok, strings.Join(ans, " "))
+					if udp {
+						// UDP: the datagram target stays the IP (udp.go), but the outbound (re-route by name) and
+						// the strict-family flag come from chooseProxyDialer(Network:"udp") — same table
+						stats.Inc("pick.udp.mode." + mode)
+						op := fmt.Sprintf("pick %d %s %s %s %d %s %s", ob, c18DstTok(dst), c18Hex(d), rt, nOut, metaTok, strings.Join(ans, " "))
+						st.Emit(strings.TrimRight(op, " "), VRecover(func() string {
+							w.calls = 0
+							res, err := w.cp.chooseProxyDialer(context.Background(), &proxyDialParam{
+								Outbound: consts.OutboundIndex(ob), Domain: d, Src: src, Dest: dst, Network: "udp",
+								Mac: meta.Mac, Dscp: meta.Dscp, ProcessName: meta.ProcessName,
+							})
+							settle(ans)
+							if err != nil {
+								return "err"
+							}
+							if strconv.Itoa(ob) != strings.TrimPrefix(res.Outbound.Name, "g") {
+								stats.Inc("pick.udp.rerouted")
+							}
+							return fmt.Sprintf("ob=%s t=%s ip=%s probe=%s", strings.TrimPrefix(res.Outbound.Name, "g"), c18Hex(res.DialTarget), c18Bool(res.IsDialIp), c18Bool(w.calls > 0))
+						}))
+						afterT(ans)
+						continue
+					}
+					failTok := strconv.Itoa(fail)
+					if fail > 2 {
+						failTok = "2" // any error that does not force the dialer unavailable: one dial, no retry
+					}
+					op := fmt.Sprintf("dial %d %s %s %s %d %s %s %s", ob, c18DstTok(dst), c18Hex(d), rt, nOut, failTok, metaTok, strings.Join(ans, " "))
 					stats.Inc("dial.mode." + mode)
 					stats.Inc("dial.class." + class)
-					if fail {
+					if fail == 1 {
 						stats.Inc("dial.first-attempt-fails")
+					}
+					if fail > 1 {
+						stats.Inc("dial.refused-or-timeout")
 					}
 					st.Emit(strings.TrimRight(op, " "), VRecover(func() string {
 						w.calls = 0
@@ -1183,16 +1237,16 @@ func TestVerifC18(t *testing.T) {
 							Outbound: consts.OutboundIndex(ob), Domain: d, Src: src, Dest: dst, Network: "tcp",
 							Mac: meta.Mac, Dscp: meta.Dscp, ProcessName: meta.ProcessName,
 						})
-						failNext = false
+						failNext = 0
 						settle(ans)
-						if fail {
+						if fail == 1 {
 							buildGroups()
 						}
 						// the sequence of (group, address) handed to node dialers; an immediate repeat of the
 						// same dial without an injected failure (e.g. a dual-stack dial) is not a difference
 						var parts []string
 						for i, e := range dialLog {
-							if i > 0 && !fail && e == dialLog[i-1] {
+							if i > 0 && fail == 0 && e == dialLog[i-1] {
 								continue
 							}
 							p := strings.SplitN(e, "|", 2)
@@ -1207,6 +1261,7 @@ func TestVerifC18(t *testing.T) {
 						if err != nil {
 							stats.Inc("dial.err")
 							parts = append(parts, "err")
+							return strings.Join(parts, " ; ") // whether a probe was started is not compared when the dial fails anyway
 						} else {
 							last := strings.SplitN(dialLog[len(dialLog)-1], "|", 2)
 							if last[1] != res.DialTarget {
